@@ -168,12 +168,52 @@ func HarnessC07Decorated() {
 		}
 	}()
 	vrt.Assert(g.Publish("t", newMsg(0)) == nil, "publish")
+	if vrt.Bool("second.close.concurrently") {
+		go func() {
+			vrt.MustFinish()
+			vrt.Assert(sub.Close() == nil, "a concurrent second Close of the decorated Pub/Sub returns")
+		}()
+	}
 	vrt.Assert(sub.Close() == nil, "Close of the decorated Pub/Sub returns")
 	vrt.Assert(vrt.IsClosed(ch) || vrt.ChanLen(ch) > 0, "after Close has returned the decorated output channel is closed")
 	vrt.AtQuiescence(func() {
 		vrt.Assert(vrt.IsClosed(ch) || vrt.ChanLen(ch) > 0, "the decorated output channel is closed after Close")
 		vrt.Assert(vrt.Live("message.(*messageTransformSubscriberDecorator)") == 0, "no decorator goroutine remains after Close")
 	})
+}
+
+// HarnessC07DecoratorShared: one decorator value wraps two Pub/Subs (what Router.AddSubscriberDecorators does for
+// every handler): closing one of them leaves the other working, and closing the other afterwards terminates.
+func HarnessC07DecoratorShared() {
+	dec := message.MessageTransformSubscriberDecorator(func(m *message.Message) {})
+	g1 := NewGoChannel(Config{}, watermill.NopLogger{})
+	g2 := NewGoChannel(Config{}, watermill.NopLogger{})
+	s1, err := dec(g1)
+	vrt.Assert(err == nil, "decorated 1")
+	s2, err := dec(g2)
+	vrt.Assert(err == nil, "decorated 2")
+	ch1, err := s1.Subscribe(context.Background(), "t")
+	vrt.Assert(err == nil, "subscribe 1")
+	ch2, err := s2.Subscribe(context.Background(), "t")
+	vrt.Assert(err == nil, "subscribe 2")
+	vrt.Assert(s1.Close() == nil, "Close of the first returns")
+	vrt.Assert(vrt.IsClosed(ch1), "its output channel is closed")
+	got := 0
+	received, done := make(chan struct{}, 1), make(chan struct{})
+	go func() {
+		vrt.MayBlock()
+		for m := range ch2 {
+			got++
+			m.Ack()
+			received <- struct{}{}
+		}
+		close(done)
+	}()
+	vrt.Assert(g2.Publish("t", newMsg(0)) == nil, "publish to the other")
+	<-received // main must get here: closing one decorated subscriber leaves the other working
+	vrt.Assert(s2.Close() == nil, "Close of the second returns")
+	<-done
+	vrt.Assert(got == 1, "the message arrived once")
 }
 
 // HarnessC07DecoratedSubscribeClose: Subscribe on a decorated subscriber racing with Close: after Close has
